@@ -113,8 +113,9 @@ DecW == IF Quick THEN <<1, 2, 8, 64, 252, 254, 255, 256>> ELSE [i \in 1..256 |->
 
 WithVals(w) == Around(w) \o (IF Quick THEN << Rnd(w) >> ELSE Globals \o << Rnd(w) >>)
 
-RangeCases(entry) ==
-  Flat(Map(RangeW, LAMBDA w : Map(WithVals(w),
+RangeWQ == <<0, 1, 2, 7, 8, 9, 63, 64, 65, 128, 192, 253, 254, 255, 256>>
+RangeCasesW(entry, widths) ==
+  Flat(Map(widths, LAMBDA w : Map(WithVals(w),
         LAMBDA x : [g |-> entry, n |-> w, x |-> x, expect |-> RangeRel(w, x),
                     ops |-> P1(x, [op |-> entry, w |-> "x", bits |-> w])])))
 RangePairCases ==
@@ -517,7 +518,7 @@ ShapeCases ==
 
 VARIABLE k
 AllCases ==
-  CASE Family = "range" -> RangeCases("range_bits") \o RangeCases("range_check") \o RangePairCases
+  CASE Family = "range" -> RangeCasesW("range_bits", RangeW) \o RangeCasesW("range_check", RangeWQ) \o RangePairCases
     [] Family = "decomposition" -> DecompCases
     [] Family = "decomposition-alias" -> AliasCases
     [] Family = "shape" -> ShapeCases
